@@ -43,8 +43,8 @@ type Modules struct {
 	// ignored. The keys of the map are a string that is formed by concatenating
 	// the name of the including (sub)module and the included submodule.
 	mergedSubmodule map[string]bool
-	// usesInProgress is the stack of groupings whose uses is being expanded,
-	// to detect a grouping that uses itself.
+	// usesInProgress is the stack of groupings being converted, to detect a
+	// grouping that uses itself.
 	usesInProgress []*Grouping
 	// ParseOptions sets the options for the current YANG module parsing. It can be
 	// directly set by the caller to influence how goyang will behave in the presence
